@@ -17,7 +17,7 @@ def _suites():
     return out
 
 
-STYLES = None
+STYLES = ["untimed", "timed", "timed", "trickle", "slowcons", "tiny", "blockedwrite", "long", "long"]
 SUITES = _suites()
 ASSUMPTIONS = [
     "model: the discipline's goroutine as a program-counter machine (Join.jstep); channels, producer, consumer, ticker grid and fake clock "
